@@ -1,4 +1,4 @@
-(* C44 (c): orthotropic plane-stress class, positive statement (used when defect F24 is not observed) *)
+(* C44 (c): orthotropic plane-stress class, positive statement (used when defect F-C44b is not observed) *)
 From Coq Require Import Reals List.
 From C44 Require Import C44PS_gen C44PSStatements C44ProofsPS C44ProofsPSOrtho.
 
